@@ -45,7 +45,9 @@ def q408Line (args : List String) : String :=
         let body := mkBody bodyLen seed
         -- the first payload set: blocks 0 .. min(MAX_PAYLOADS, number of blocks) - 1
         let nb := (bodyLen + 2 ^ (szx + 4) - 1) / 2 ^ (szx + 4)
-        let first := if nb < maxPay then nb else maxPay
+        -- (coap_send_q_blocks tests `((num + 1) % MAX_PAYLOADS) + 1 != MAX_PAYLOADS` before it prepares block num + 1: with
+        -- MAX_PAYLOADS ≤ 2 only block 0 goes out; not part of the model, printed so that the line says the transfer started)
+        let first := if maxPay ≤ 2 then 1 else if nb < maxPay then nb else maxPay
         let items := q408Run maxPay body szx fmt (typ == 1) its true []
         s!"M tx={first} lg={szx}" ++ (if items.isEmpty then "" else " " ++ String.intercalate "," items) ++ " rel=1"
     | _, _, _, _, _ => "bad-op"
